@@ -268,6 +268,27 @@ func (op HeapOp) src() string {
 		return set(fmt.Sprintf("(make-sequence %d %d)", op.I, op.J))
 	case "alias":
 		return set(v(op.A))
+	case "alias-via":
+		// forms that hand back the very value they were given
+		e := v(op.A)
+		switch op.I {
+		case 0:
+			return set("(progn " + e + ")")
+		case 1:
+			return set("(if true " + e + " ())")
+		case 2:
+			return set("(let ((zq " + e + ")) zq)")
+		case 3:
+			return set("(funcall (lambda (x) x) " + e + ")")
+		case 4:
+			return set("(car (list " + e + "))")
+		case 5:
+			return set("(nth (vector 0 " + e + ") 1)")
+		case 6:
+			return set("(identity " + e + ")")
+		default:
+			return set("(to-bytes " + e + ")") // bytes are returned as-is
+		}
 	case "slice":
 		return set(fmt.Sprintf("(slice '%s %s %d %d)", op.Type, v(op.A), op.I, op.J))
 	case "cdr":
@@ -413,6 +434,11 @@ func (h *heap) valid(op HeapOp) bool {
 		return len(op.Elems) > 0
 	case "vector", "bytes", "alias":
 		return true
+	case "alias-via":
+		if op.I >= 7 {
+			return a.k == hRef && a.obj.kind == oBytes
+		}
+		return op.I >= 0
 	case "map":
 		return len(op.Elems)%2 == 0
 	case "mkseq":
@@ -643,7 +669,7 @@ func (h *heap) apply(op HeapOp, callbackFailed bool) {
 		} else {
 			res = newSeq(oList, cs)
 		}
-	case "alias":
+	case "alias", "alias-via":
 		res = a
 	case "slice":
 		res = hval{k: hRef, obj: &hobj{kind: kind, back: a.obj.back, off: a.obj.off + op.I, n: op.J - op.I, clamped: true}}
@@ -905,7 +931,7 @@ func (heapEngine) Gen(r *Rand, tier string) any {
 		}
 		return out
 	}
-	kinds := []string{"list", "vector", "map", "bytes", "mkseq", "alias", "slice", "slice", "cdr", "rest", "append", "append", "cons", "reverse",
+	kinds := []string{"list", "vector", "map", "bytes", "mkseq", "alias", "alias-via", "alias-via", "slice", "slice", "cdr", "rest", "append", "append", "cons", "reverse",
 		"map-inc", "select", "reject", "zip", "insert-index", "insert-sorted", "concat", "assoc", "dissoc", "keys", "nth", "get", "length",
 		"assoc!", "assoc!", "dissoc!", "append!", "append!", "append!", "append-bytes!", "append-bytes", "slice-bytes", "append!-bytes", "sort", "sort", "sort", "sort-key", "sort-str", "sort-str", "keys", "sort-mod", "sort-mod", "copy", "copy", "append-ts-bytes", "append-bytes-v!", "append-bytes-v!", "append-bytes-v", "apply-rest", "apply-rest", "apply-sort", "apply-sort", "funcall-rest"}
 	var planned []HeapOp
@@ -1045,6 +1071,11 @@ func (heapEngine) Gen(r *Rand, tier string) any {
 					}
 				case "funcall-rest":
 					op.Elems = intsN(2, 4)
+				case "alias-via":
+					op.I = r.Range(0, 6)
+					if a.k == hRef && a.obj.kind == oBytes && r.Bool() {
+						op.I = 7
+					}
 				case "append!-bytes", "append-ts-bytes":
 					op.Elems = intsN(1, 3)
 				case "append", "append!":
